@@ -597,9 +597,6 @@ func c09CssTrigger(k c09CssCase, in []c09CssTok, inOpen bool) []string {
 			add("K-C09-CSS-6") // … and a url cut off by EOF loses its last byte
 		}
 	}
-	if c09CssHexThenEscapedNl.MatchString(src) {
-		add("K-C09-CSS-11") // removing the escaped newline lets the hex escape in front of it run on
-	}
 	if c09CssHexCRLF.MatchString(src) {
 		add("K-C09-CSS-10") // hex escape terminated by CRLF: the dependency lexer takes the CR only
 		for _, t := range in {
@@ -627,53 +624,6 @@ func c09CssTrigger(k c09CssCase, in []c09CssTok, inOpen bool) []string {
 			}
 		}
 	}
-	word := func(t c09CssTok) bool {
-		return t.tt == c09CssIdent || c09CssIsNum(t.tt) || t.tt == c09CssHash || t.tt == c09CssFunction || t.tt == c09CssURL || t.tt == c09CssAtKeyword
-	}
-	tight := func(i int) bool { return i < len(in) && !in[i].ws && !in[i].cmt }
-	// inside a function the arguments are written back to back:
-	depth := 0
-	for i, t := range in {
-		if t.tt == c09CssFunction || t.tt == c09CssLParen {
-			depth++
-		} else if t.tt == c09CssRParen {
-			if depth > 0 {
-				depth--
-			}
-			// K1: a colour function that becomes a hash / name, directly followed by something it glues to
-			if depth > 0 && tight(i+1) {
-				n := in[i+1]
-				if !(n.tt == c09CssComma || n.tt == c09CssRParen || (n.tt == c09CssDelim && n.lex == "/")) {
-					d, j := 0, i
-					for ; j >= 0; j-- {
-						if in[j].tt == c09CssRParen {
-							d++
-						} else if in[j].tt == c09CssFunction || in[j].tt == c09CssLParen {
-							d--
-							if d == 0 {
-								break
-							}
-						}
-					}
-					if j >= 0 {
-						switch strings.ToLower(in[j].lex) {
-						case "rgb(", "rgba(", "hsl(", "hsla(":
-							add("K-C09-CSS-1")
-						}
-					}
-				}
-			}
-		}
-		// K2: a number that is re-spelt (`1.0` -> `1`, `.0` -> `0`, `+1` -> `1`) directly next to a token it then glues to
-		if depth > 0 && c09CssIsNum(t.tt) {
-			if tight(i+1) && c09CssIsNum(in[i+1].tt) && in[i+1].lex[0] == '.' {
-				add("K-C09-CSS-2")
-			}
-			if i > 0 && tight(i) && (word(in[i-1]) && in[i-1].tt != c09CssFunction && in[i-1].tt != c09CssURL) {
-				add("K-C09-CSS-2")
-			}
-		}
-	}
 	for i, t := range in {
 		// a lone backslash (in front of a newline)
 		if t.tt == c09CssDelim && t.lex == "\\" {
@@ -686,10 +636,6 @@ func c09CssTrigger(k c09CssCase, in []c09CssTok, inOpen bool) []string {
 		// `<` `!` `--`: white space around `!` is dropped by the parser
 		if t.tt == c09CssDelim && t.lex == "<" && n.tt == c09CssDelim && n.lex == "!" {
 			add("K-C09-CSS-3")
-		}
-		// K10: a name ending in a hex escape without its terminating white space, a comment, a name character
-		if (t.tt == c09CssIdent || t.tt == c09CssHash || t.tt == c09CssDimension || t.tt == c09CssAtKeyword) && n.cmt && c09CssOpenHexEscape(t.lex) && (c09CssNameByte(n.lex[0]) || n.tt == c09CssLParen || c09CssIsNum(n.tt)) {
-			add("K-C09-CSS-7")
 		}
 	}
 	if strings.Contains(src, "*/") {
@@ -716,7 +662,6 @@ func c09CssTrigger(k c09CssCase, in []c09CssTok, inOpen bool) []string {
 	return ids
 }
 
-var c09CssHexThenEscapedNl = regexp.MustCompile(`\\[0-9a-fA-F]{1,6}\\(\r\n|\n|\r)`)
 var c09CssHexCRLF = regexp.MustCompile(`\\[0-9a-fA-F]{1,6}\r\n`)
 
 func c09CssNameByte(c byte) bool {
@@ -787,16 +732,12 @@ func c09CssKnownExplains(id, failed string) bool {
 	value := strings.HasPrefix(failed, "string/url value")
 	open := strings.HasPrefix(failed, "output ends inside")
 	switch id {
-	case "K-C09-CSS-1", "K-C09-CSS-2", "K-C09-CSS-7":
-		return written
 	case "K-C09-CSS-3":
 		return written || open || strings.HasPrefix(failed, "brackets balanced") || outside // `\` + newline + `}` becomes `\}`
 	case "K-C09-CSS-4", "K-C09-CSS-5":
 		return outside
 	case "K-C09-CSS-10":
 		return written || value || outside
-	case "K-C09-CSS-11":
-		return value || written
 	case "K-C09-CSS-6", "K-C09-CSS-8", "K-C09-CSS-9", "K-C09-CSS-10#string":
 		return true // error recovery on malformed input: any of the checks may notice
 	}
@@ -1150,6 +1091,9 @@ func c09CssRunCases(c *Ctx, st *h.Stage, cases []c09CssCase) error {
 		}
 		if failed != "" {
 			if id := c09CssExplained(known, failed); id != "" {
+				if os.Getenv("C09CSS_DEBUG") == "2" {
+					fmt.Fprintf(os.Stderr, "KNOWN %s %s | %q => %q | %s\n", id, failed, trunc([]byte(k.src), 300), trunc([]byte(r.out), 300), k.cfg())
+				}
 				c.R.ExcludedKnown++
 				st.Tag("known=" + id)
 			} else {
@@ -1363,6 +1307,11 @@ var c09CssFixedCorpus = []string{
 	"a{b:calc(1px + 2px)}", "a{b:calc(1px - -2px)}", "a{b:calc(1px+2px)}", "a{b:a (b)}", "a{b:a\\31  b}", "a{b:a\\31 b}", "a{b:1 em}", "a{b:1 e3}", "a{b:1 -2}", "a{b:1.0 .5}",
 	"a{b:1e 3}", "a{b:- a}", "a{b:# a}", "a{b:@ a}", "a{b:. 5}", "a{b:u+1 ?}", "a{b:url( \"a b\" ) c}", "a{b:a\\/ b}", "a{b:a\\) b}", "a{b:< !-- a}", "a{b:- ->}",
 	"a{rotate:0deg}", "a{b:hypot(0px,3px)}", "a{color:rgb(255,0%,0)}", "a{width:1.5e10px}",
+	// a933f35 (K-C09-CSS-1, -2, -7, -11)
+	"a{background:linear-gradient(rgb(255,0,0)10%,blue)}", "a{b:f(rgb(0,0,0)a)}", "a{b:f(hsl(0,100%,50%)(a))}", "a{b:f(rgba(0,0,0,1)1)}", "a{b:rotate(rgb(0,0,0)- u)}",
+	"a{b:f(1.0.5)}", "a{b:f(1e0.5)}", "a{b:f(a1.0%)}", "a{b:f(-a0.0px,url(a))}", "a{b:f(--a1.0% / 2)}", "a{b:f(\\31 +1)}", "a{b:f(\\31 0.0px + +11.0)}", "a{b:f(a\\31 1.0%,g(1))}",
+	"a{b:a\\9/**/b}", "a{b:a\\9/**/ b}", "a{b:\\9/**/(a)}", "a{b:\\9/**/-->}", "a{b:\\9/**/+1}", "a{b:f(a\\9/**/b)}", "a{quotes:0px /**/ \\9/**/1x000!IMPORTANT}",
+	"a{b:\"\\31\\\n2\"}", "a{b:\"x\\31\\\n y\"}", "a{b:\"\\31\\\n\\\n2\\41\\\r\nx\"}", "a{b:url(\"abcdefghijkl\\31\\\n2\")}",
 	// 71d92ee, addcaae
 	"[a=b s]{c:d}", "[a=\"b\" S]{c:d}", "[a=b x]{c:d}", "[a=\"b\\31\" i]{c:d}", "@import url(x);", "@import url( \"x\" );", "@namespace Foo \"u\";Foo|a{b:c}", "a::part(Foo){b:c}",
 }
